@@ -135,8 +135,14 @@ type chainMachine struct {
 	twin       *AkashApp // optional second instance (C07)
 }
 
-func (m *chainMachine) tenants() []*cmActor   { return m.actors[0:3] }
-func (m *chainMachine) providers() []*cmActor { return m.actors[3:6] }
+// Two accounts play both roles (tenant1 also runs a provider, prov0 also deploys), so that
+// leases between accounts that are each other's tenant and provider are reachable.
+func (m *chainMachine) tenants() []*cmActor {
+	return []*cmActor{m.actors[0], m.actors[1], m.actors[3]}
+}
+func (m *chainMachine) providers() []*cmActor {
+	return []*cmActor{m.actors[3], m.actors[4], m.actors[1]}
+}
 func (m *chainMachine) auditors() []*cmActor  { return m.actors[6:8] }
 func (m *chainMachine) outsider() *cmActor    { return m.actors[8] }
 
